@@ -181,7 +181,7 @@ func runC12(r *core.Run) {
 		docs := c12StructuredDocs(r.Quick())
 		for _, cn := range []string{"all+cjk+attr+autoid", "gfm+autoid+unsafe+xhtml"} {
 			cfg := core.MustCfg(cn)
-			s := r.Sub("convert-structured/"+cn, fmt.Sprintf("%d documents from the structured generators (inline/block nesting, heading sequences with colliding texts, footnote reference/definition sequences, attribute blocks, replication families, the leak-prone documents of C06), each converted from a read-only page under %s", len(docs), cn))
+			s := r.Sub("convert-structured/"+cn, fmt.Sprintf("%d documents from the structured generators (inline/block nesting, heading sequences with colliding texts, footnote reference/definition sequences, attribute blocks, replication families, the leak-prone documents of C06, the printed model documents of C02 — lists, quotes and code blocks indented with tabs and spaces in every single-deviation spelling —, small tables with every pair of cell contents), each converted from a read-only page under %s", len(docs), cn))
 			s.Planned = int64(len(docs)) * 2
 			complete := core.ForEachIndex(len(docs), core.Workers(), func(w int) func(int) {
 				runtime.LockOSThread()
@@ -353,6 +353,15 @@ func c12StructuredDocs(quick bool) [][]byte {
 	ReplDocs(map[bool]int{true: 12, false: 140}[quick], func(u, sep string, n int, doc []byte) { add(doc) })
 	for _, d := range c06Docs {
 		add([]byte(d))
+	}
+	for _, d := range ModelDocs() {
+		add(d)
+	}
+	for _, d := range TableDocs() {
+		add(d)
+	}
+	for _, d := range TabCodeDocs() {
+		add(d)
 	}
 	return docs
 }
